@@ -46,7 +46,7 @@ uint32_t cop_serialize_value(const NanoValue *val, uint8_t *buf, uint32_t buf_si
             s = val->as.string->data;
             len = val->as.string->length;
         }
-        if (pos + 4 + len > buf_size) return 0;
+        if (buf_size < pos + 4 || len > buf_size - pos - 4) return 0;
         memcpy(buf + pos, &len, 4);
         pos += 4;
         if (len > 0) {
